@@ -3247,7 +3247,15 @@ M("s15-parties-by-division", "C05", "fire S15 S1", "src/compile.rs",
             for _ in 0..*size {
                 let type_size = total / *size;""", "seed C05-i (shape): the bits of one party computed as total / number of elements")
 # (REVERT of 20237f8 - importer bounds and assigned-table - no longer applies after 8985a92; its B5 half is revert-importer-fallible-tables, its B6 half the b6-* mutants)
-REVERT("revert-importer-fallible-tables", "C11", "fire B5", "8985a92", "pre-fix tree: tables sized by the declared wires, only the non-input wires bounded by the file")
+M("b5-wire-tables-direct", "C11", "fire B5", "src/convert.rs",
+  """        let (Some(mut wires_map), Some(mut is_assigned)) =
+            (table(wires_num, 0), table(wires_num, false))
+        else {
+            return Err(FromBristolError::MalformedLine(input_line));
+        };""",
+  """        let _ = &input_line;
+        let mut wires_map = vec![0; wires_num];
+        let mut is_assigned = vec![false; wires_num];""", "pre-fix behaviour of 8985a92 (its REVERT no longer applies after 178f3c3): tables sized by the declared wires, only the non-input wires bounded by the file")
 M("b5-reservation-result-dropped", "C11", "fire B5", "src/convert.rs",
   """    table.try_reserve_exact(len).ok()?;""",
   """    let _ = table.try_reserve_exact(len);""", "the helper allocates whether or not the reservation succeeded")
